@@ -9,6 +9,7 @@ out=/tmp/allseeds.$$; mkdir -p $out
 run_one() {
   s=$1; prop=$(python3 -c "import json;print(json.load(open('/verif/seeded/$s/meta.json'))['property'])")
   /verif/tools/run_seed.sh /verif/seeded/$s $prop > $2/$s.log 2>&1
+  if ! git -C /repo apply --check /verif/seeded/$s/patch.diff 2>/dev/null; then echo "stale         $s ($prop): the patch no longer applies to /repo HEAD (written against code that was repaired since)"; return; fi
   if grep -q "^rc\[$prop\]=1" $2/$s.log; then echo "detected      $s ($prop): $(grep -m1 'obligation:' $2/$s.log | sed 's/.*obligation: //' | cut -c1-110)"; else echo "NOT DETECTED  $s ($prop)"; fi
 }
 export -f run_one
